@@ -30,7 +30,7 @@ CUSTOM_VALUE_MAP = {"type": ["int", "tup", "person", "obj", "wrap"]}
 IDENTITY_HASHED = ("w", "o", "f")
 
 
-def _interning_deser(w: World, cache: dict, consume=False):
+def _interning_deser(w: World, cache: dict, consume=False, verify_user_keys=False):
     """Inverse of the serialising mapper; equal stored values give one object
     (so identity-hashed data keeps its clone groups).  `consume`: the mapper
     uses up the entry dict it was handed (pops everything), as a mapper doing
@@ -44,6 +44,11 @@ def _interning_deser(w: World, cache: dict, consume=False):
             if "data" in data and isinstance(data["data"], str) and "type" not in data:
                 return data["data"]
             raise KeyError("no type")
+        if verify_user_keys:
+            for k, v in USER_KEYS.items():
+                if data.get(k) != v:
+                    raise KeyError(f"field {k!r} stored by the mapper came back as "
+                                   f"{data.get(k)!r} (keys: {sorted(data)})")
         core = {k: v for k, v in data.items()
                 if k in ("type", "v", "name", "age", "guid")}
         key = json.dumps(core, sort_keys=True)
@@ -70,19 +75,27 @@ def _interning_deser(w: World, cache: dict, consume=False):
     return deser_consume if consume else deser_any
 
 
-def _ser(w: World, style="inplace_ret"):
+USER_KEYS = {"s": "keep-s", "i": "keep-i", "k": "keep-k"}
+
+
+def _ser(w: World, style="inplace_ret", user_keys=False):
     """Serialising mapper in the three documented styles: modify `data` in place
-    and return None, modify in place and return it, or return a new dict."""
+    and return None, modify in place and return it, or return a new dict.
+    `user_keys`: the mapper also stores fields named like the standard short keys
+    (only legal when no key map is in use)."""
     def ser(node, data):
         w.fault.tick("mapper")
+        extra = dict(USER_KEYS) if user_keys and not isinstance(node.data, str) else {}
         if style == "new":
             # a fresh dict built from the documented fields only
             new = {k: data[k] for k in ("data", "str", "data_id", "kind") if k in data}
             if not isinstance(node.data, str):
                 new.update(encode_value(node.data))
+            new.update(extra)
             return new
         if not isinstance(node.data, str):
             data.update(encode_value(node.data))
+        data.update(extra)
         return None if style == "inplace_none" else data
 
     return ser
@@ -148,7 +161,7 @@ def _effective_maps(w: World, flavour: str, cls, key_map_opt, value_map_opt, kin
 
 
 def check_written_document(w: World, text: str, mt, *, exp_key_map, exp_value_map,
-                           user_meta, trigger):
+                           user_meta, trigger, extra=None):
     """C12 writing side: the text must follow the documented layout and decode
     to the model state."""
 
@@ -233,6 +246,8 @@ def check_written_document(w: World, text: str, mt, *, exp_key_map, exp_value_ma
             exp["str"] = m.data
         else:
             exp.update(encode_value(m.data))
+            if extra:
+                exp.update(extra)
         if custom:
             exp["data_id"] = m.did
         if typed:
@@ -284,6 +299,7 @@ def plan_restart(w: World, op: dict) -> Plan:
     plain_entries = all(isinstance(m.data, str) and m.did == hash(m.data)
                         for m in mt.root.iter_pre())
     no_mapper = bool(op.get("no_mapper")) and plain_entries and not class_style
+    has_fs_data = any(flavour_of(m.data) == "f" for m in mt.root.iter_pre())
     target_kind = op.get("target", "path")
     comp = op.get("compression")
     if target_kind == "stream":
@@ -292,7 +308,6 @@ def plan_restart(w: World, op: dict) -> Plan:
     for m in mt.root.iter_pre():
         if m.kind not in kinds:
             kinds.append(m.kind)
-    has_fs_data = any(flavour_of(m.data) == "f" for m in mt.root.iter_pre())
     if (op.get("key_map") == "custom" and (flavour == "fs" or has_fs_data)) or (
             has_fs_data and flavour != "fs" and op.get("key_map", "default") != "off"):
         # the FileSystemEntry field names n/s/m/d collide with the short keys of
@@ -303,8 +318,10 @@ def plan_restart(w: World, op: dict) -> Plan:
     user_meta = op.get("meta")
     if user_meta:
         kw["meta"] = dict(user_meta)
+    user_keys = bool(op.get("user_keys")) and op.get("key_map") == "off" and not mt.typed \
+        and not class_style and not no_mapper and not has_fs_data
     if not class_style and not no_mapper:
-        kw["mapper"] = _ser(w, op.get("mapper_style", "inplace_ret"))
+        kw["mapper"] = _ser(w, op.get("mapper_style", "inplace_ret"), user_keys=user_keys)
     if comp is not None:
         kw["compression"] = comp if isinstance(comp, bool) else COMPRESSION[comp]
     trigger = "restart/file/" + target_kind
@@ -363,7 +380,8 @@ def plan_restart(w: World, op: dict) -> Plan:
         pending = []
         try:
             check_written_document(w, text, mt, exp_key_map=exp_k, exp_value_map=exp_v,
-                                   user_meta=user_meta, trigger=trigger)
+                                   user_meta=user_meta, trigger=trigger,
+                                   extra=USER_KEYS if user_keys else None)
         except Violation as v12:
             # keep going: what load() makes of the file is C05's own question
             pending.append(v12)
@@ -376,7 +394,8 @@ def plan_restart(w: World, op: dict) -> Plan:
         file_meta = {}
         lkw = {"file_meta": file_meta}
         if not class_style and not no_mapper:
-            lkw["mapper"] = _interning_deser(w, {}, consume=op.get("deser_style") == "consume")
+            lkw["mapper"] = _interning_deser(w, {}, consume=op.get("deser_style") == "consume",
+                                             verify_user_keys=user_keys)
         try:
             if target_kind == "path":
                 loaded = load_cls.load(state["path"], **lkw)
